@@ -20,7 +20,7 @@ reference is a violation; a hole outside the algebra is inconclusive (exit 2), n
 import re
 
 from ..terms import *
-from ..absint import Interp
+from ..absint import Interp, iter_effects
 from ..loader import AnalysisError
 from .. import lp, doc
 from ..canon import canon, equiv, closed, BV, RANGE, replace, _eq, doc_term
@@ -227,6 +227,20 @@ def run(rep, repo, tier):
                         'the reported pairs form a matching: at most one pair per student (C01)']
     from ..defined import check_defined
     check_defined(rep, repo, 'C11.R3', [repo.method('Model', 'get_results')], 'result rendering')
+    from ..shapes import scatter_size_problems
+    gr_ = repo.method('Model', 'get_results')
+    try:
+        effs_, rv_ = Interp(repo).run(gr_, {p_: S(p_) for p_ in gr_.params[1:]}, selfterm=M)
+        probs_ = scatter_size_problems(rv_)
+        seen_ = set()
+        for e_, _c in iter_effects(effs_):
+            for v_ in e_.__dict__.values():
+                if isinstance(v_, tuple) and v_ and isinstance(v_[0], str):
+                    probs_ += [p_ for p_ in scatter_size_problems(v_, seen_) if p_ not in probs_]
+        rep.check(not probs_, 'C11.R4', gr_.where, 'every per-agent tally or listing has one slot per agent of the sort it is keyed by', got=probs_[:3] or 'sizes agree',
+                  want='[..] * num_<sort of the key>', construct='per-agent list of the wrong size')
+    except Unknown:
+        pass                                     # the renderer itself is judged (and reported) below
     from ..lints import falls_off_the_end
     for cls_, name_ in (('Solver', 'get_results'), ('Solver', 'get_results_short'), ('Solver', 'get_results_long'), ('Model', 'get_results')):
         g = repo.method(cls_, name_, required=False)
